@@ -803,7 +803,6 @@ func sortedKeys[M ~map[string]V, V any](m M) []string {
 
 var _ = fmt.Sprintf
 
-
 // linearize writes an integer term as sum(coeff * atom) + c; ok is false when
 // the term contains a product of two non-constants.
 func linearize(t *Term) (map[string]int64, map[string]*Term, int64, bool) {
